@@ -660,9 +660,27 @@ class _ARM64_ELF(ABI):
                 #       would allow us to repurpose any register that's
                 #       clobbered for this as long as it isn't read.
                 flags_reg = register_use.scratch_registers[0]
-            else:
+            elif register_use.available_registers:
                 flags_reg = register_use.available_registers.pop(0)
                 register_use.clobbered_registers.append(flags_reg)
+            else:
+                # Every register is clobbered or read by the patch. A
+                # clobbered register that the patch does not read will do,
+                # as it gets saved before we overwrite it.
+                reads = {
+                    self.get_register(name)
+                    for name in constraints.reads_registers
+                }
+                candidates = [
+                    reg
+                    for reg in register_use.clobbered_registers
+                    if reg not in reads
+                ]
+                if not candidates:
+                    raise ValueError(
+                        "unable to allocate a register to save the flags"
+                    )
+                flags_reg = candidates[0]
 
         # ARM64 requires sp be 16-byte aligned any time it is used as a base
         # register in an address operand. What we're going to do is push two
